@@ -974,9 +974,17 @@ def find_replace(
                 template_replacement = f"({template_replacement})"
 
         indentation = formatting.indentation_level(source[range_start:range_end])
-
-        template_replacement = textwrap.dedent(template_replacement)
-        template_replacement = textwrap.indent(template_replacement, " " * indentation)
+        line_start = source.rfind("\n", 0, range_start) + 1
+        if "\n" in template_replacement.strip() and not source[line_start:range_start].strip(" "):
+            # The first line of the match has lost its indentation, which is where the
+            # following lines of the replacement belong. Its first line goes where the match was.
+            indentation = range_start - line_start
+            template_replacement = textwrap.dedent(template_replacement).strip("\n")
+            template_replacement = textwrap.indent(template_replacement, " " * indentation)
+            template_replacement = template_replacement[indentation:]
+        else:
+            template_replacement = textwrap.dedent(template_replacement)
+            template_replacement = textwrap.indent(template_replacement, " " * indentation)
 
         item = [replacement_range, template_replacement]
         if transaction is not None:
